@@ -48,8 +48,7 @@ CHECKS = {
               "property-based round-trip testing (Hypothesis) of API-built programs"),
     "C11": _c("Generated fault injection: one fault (class x slot x position drawn independently) is injected into a valid generated script "
               "that stays grammatical; loading must raise, and for undefined/reserved names it must be BlackbirdSyntaxError naming the "
-              "identifier and its line/column.", "C11", "property-based testing (Hypothesis) with single-fault injection over a typed script model",
-              category="fault_enumeration"),
+              "identifier and its line/column.", "C11", "property-based testing (Hypothesis) with single-fault injection over a typed script model"),
     "C12": _c("Generated histories of load/loads calls (valid, template, failing at each stage, probe scripts over a tiny shared name pool, "
               "include files rewritten at the same path, mutations of returned programs) run in one process; every outcome is compared "
               "with the same call executed alone in a process forked from a pristine zygote; earlier results must stay unchanged.", "C12",
